@@ -623,6 +623,11 @@ func checkSlot(owner, lit *Func, slotObj types.Object) string {
 		}
 		ds := defSites[0]
 		redefined := func(p Point, n ast.Node) bool { return p != ds.P && assignsTo(info, n, slotObj) }
+		// a definition that never reaches the creation of the wait closure (the "nothing to evict"
+		// result of an eviction helper is followed by the refusal) says nothing about the slot
+		if pt, _ := g.Reach(ds.After(), Cut{Stop: redefined, Edges: infeasible}, atSite(litSites[0])); pt == nil {
+			continue
+		}
 		switch {
 		case d.Kind == DefAssign && d.Idx < 0 && isLenOfField(info, d.Rhs, "pendingLeaves"):
 			// n := len(p.pendingLeaves): must be followed by append (or redefinition) before the closure
